@@ -622,11 +622,15 @@ class UCSReplication(MessagePassingComputation):
                 (agent, msg.computation_def.name), False
             )
             if not pending:
-                # If not in pending request : error !
+                # This request has already been answered on behalf of this
+                # agent, when it was reported as removed (see
+                # `_answer_lost_requests`) and the search has gone on since
+                # then: handling the late answer too would duplicate it.
                 self.logger.warning(
                     f"Unexpected answer {agent}, {msg.computation_def.name} - "
                     f"{msg} not in {list(self._pending_requests.keys())}"
                 )
+                return
 
             self.on_replicate_answer(
                 msg.budget,
@@ -1206,7 +1210,7 @@ class UCSReplication(MessagePassingComputation):
                 footprint,
                 replica_count,
                 hosts,
-            ) = self._pending_requests[rq]
+            ) = self._pending_requests.pop(rq)
             self.on_replicate_answer(
                 budget,
                 spent,
